@@ -2,7 +2,7 @@
    over gen/GenRefs.v and report the indices of the cases where the model
    differs from what the implementation did. *)
 From Coq Require Import List Bool ZArith NArith String Ascii.
-From XD Require Import model.RefSyntax model.RefTables model.Refs model.RefsOk model.RefsZ gen.GenRefs.
+From XD Require Import model.RefSyntax model.RefTables model.Refs model.RefsOk model.RefsZ model.RefsMgr gen.GenRefs.
 Import ListNotations.
 
 (* ASCII names written as Coq strings in the case files *)
@@ -60,6 +60,40 @@ Definition c04i_ok (c : c04icase) : bool :=
   | _, _ => false
   end.
 Definition c04i_mismatches (cs : list c04icase) : list nat := mism_from c04i_ok 0 cs.
+
+(* nested layouts: the manager's definitions (manager.tasks, in order), what the
+   derived properties of some locations returned (_expr, _tasks,
+   _find_dependant_targets), and one in-place statement on a location:
+   operator, target, its current value (and the same as a literal if it is one),
+   operand, what __iop__ returned *)
+Definition set_eq (a b : list term) : bool :=
+  forallb (fun x => mem_term x b) a && forallb (fun x => mem_term x a) b.
+Definition opt_term_eqb (a b : option term) : bool :=
+  match a, b with Some x, Some y => term_eqb x y | None, None => true | _, _ => false end.
+
+Definition probe := (term * option term * list term * list term)%type.
+Definition probe_ok (m : tasklist) (p : probe) : bool :=
+  let '(r, ex, ts, ds) := p in
+  opt_term_eqb (expr_of m r) ex && set_eq (tasks_of m r) ts && set_eq (dependants m r) ds.
+
+Definition nstmt := (binop * term * zv * option lit * term * iobs)%type.
+Definition nstmt_ok (m : tasklist) (s : nstmt) : bool :=
+  let '(op, target, oldv, oldl, other, obs) := s in
+  match inplace_at zv zerr z_of_lit z_pyop GT op m target oldv oldl other, obs with
+  | Some (IExpr t), OExpr t' => term_eqb t t'
+  | Some (IVal v), OVal x => res_matches v x
+  | _, _ => false
+  end.
+
+Definition c04ncase := (tasklist * list probe * list nstmt)%type.
+Definition c04n_ok (c : c04ncase) : bool :=
+  let '(m, ps, ss) := c in forallb (probe_ok m) ps && forallb (nstmt_ok m) ss.
+Definition c04n_mismatches (cs : list c04ncase) : list nat := mism_from c04n_ok 0 cs.
+(* C05 reads the same cases for the dependency-derived properties only *)
+Definition probe_deps_ok (m : tasklist) (p : probe) : bool :=
+  let '(r, _, ts, ds) := p in set_eq (tasks_of m r) ts && set_eq (dependants m r) ds.
+Definition c05n_ok (c : c04ncase) : bool := let '(m, ps, _) := c in forallb (probe_deps_ok m) ps.
+Definition c05n_mismatches (cs : list c04ncase) : list nat := mism_from c05n_ok 0 cs.
 
 (* ---------------- C05: dependencies ---------------------------------------------------- *)
 Inductive dobs := DSet (l : list term) | DNone | DRaise.
